@@ -291,6 +291,20 @@ def rule_cache_identity(chk, db, cfgname, rid):
                                          (T.strip_copy(a).get('k') == 'un' and T.strip_copy(a).get('op') == '*' and
                                           T.strip_copy(T.strip_copy(a)['e']).get('k') == 'this' and f.get('cls') == OP)
                                          for a in i.get('args', []))
+                            if copied:
+                                # a copy whose cache_ is cleared right away is a fresh node again
+                                for bb in f['blocks']:
+                                    for ee in bb['ev']:
+                                        tgt = None
+                                        if ee.get('k') == 'call' and ee.get('recv') is not None and \
+                                                (ee.get('op') == '=' or T.short(ee.get('fn', '')) == 'reset'):
+                                            tgt = T.strip(ee['recv'])
+                                        if tgt is not None and tgt.get('k') == 'mem' and tgt.get('n') == 'cache_' and \
+                                                T.pstr(tgt).lstrip('(*').startswith(v['n']) and \
+                                                (T.short(ee.get('fn', '')) == 'reset' or
+                                                 any(isinstance(y, dict) and y.get('k') == 'nullptr'
+                                                     for a in ee.get('args', []) for y in T.walk(a))):
+                                            copied = False
                             n += 1
                             chk.obligation(not copied, {'function': f['name'][:70], 'line': e.get('ln'),
                                                         'make_shared<CsgOpNode>': 'copy of an existing node' if copied
@@ -300,7 +314,7 @@ def rule_cache_identity(chk, db, cfgname, rid):
                                               'make_shared<CsgOpNode>(existing node) copies cache_ together with the '
                                               'children: the new node answers ToLeafNode with a result computed under '
                                               'the old transform', line=e.get('ln'), cfg=cfgname)
-                            else:
+                            if not copied:
                                 fresh.add(v['n'])
                 if e.get('k') == 'ctor' and e.get('cls') == OP and (e.get('copy')) and not f.get('defaulted'):
                     n += 1
